@@ -1112,7 +1112,22 @@ def may_combine_floats(e):
     """can the CAS combine a decimal literal of e with another numeric constant in float arithmetic?
     A lone decimal literal (the only numeral of its expression) cannot: it must be read exactly."""
     n, d = count_literals(e)
-    return d >= 1 and n >= 2
+    if d == 0:
+        return False
+    if n >= 2:
+        return True
+    # one literal, but expansion may add copies of it to each other: (z + z + z) * 0.1
+    occ = {}
+
+    def walk(t):
+        if t[0] == "var":
+            occ[t[1]] = occ.get(t[1], 0) + 1
+        elif t[0] != "num":
+            for a in t[1:]:
+                walk(a)
+
+    walk(e)
+    return any(k >= 2 for k in occ.values())
 
 
 def has_decimal(e):
